@@ -370,7 +370,7 @@ FN('read', props=['C07', 'C08', 'C12', 'C01', 'C09'], ret='r',
        ('C08.close_delimited', '''old(self).inner.bstate().reader->Some_0 is CloseDelimited ==>
             BodyReader::post_read_unlimit(old(self).inner.bstate().reader->Some_0, final(self).inner.bstate().reader->Some_0, input@, old(output)@, final(output)@, r)'''),
        ('C07.chunked', '''old(self).inner.bstate().reader->Some_0 is Chunked ==>
-            BodyReader::post_read_chunked(old(self).inner.bstate().reader->Some_0, final(self).inner.bstate().reader->Some_0, input@, final(output)@, old(self).inner.bstate().stop_on_chunk_boundary, r)'''),
+            BodyReader::post_read_chunked(old(self).inner.bstate().reader->Some_0, final(self).inner.bstate().reader->Some_0, input@, old(output).len() as int, final(output)@, old(self).inner.bstate().stop_on_chunk_boundary, r)'''),
        ('C08.ended_body_reads_nothing', '''({ let rd = old(self).inner.bstate().reader->Some_0;
             (rd is NoBody || (rd is LengthDelimited && rd->LengthDelimited_0 == 0) || (rd is Chunked && rd->Chunked_0 is Ended)) ==> r == Ok::<(usize, usize), Error>((0usize, 0usize)) && final(self).inner.bstate().reader == old(self).inner.bstate().reader })'''),
    ])
